@@ -13,7 +13,7 @@
    arc of H = {u->v | delay u v <= dur u} with v not initially recovered, d its
    delay.  [hpath ... v c]: a path of cost c from the initially infected set to v
    in H.  [ltmax tmax t]: t < tmax. *)
-From EoNV Require Import Prelude Samp Graph EventSIR EventSIRP EventSIRInv EventSIRMain EventSIRChar EventSIRTop.
+From EoNV Require Import Prelude Samp Graph EventSIR EventSIRP EventSIRInv EventSIRMain EventSIRChar EventSIRTop EventSIROut EventSIRPerc EventSIRReach.
 
 (* --- the main statement: for EVERY tie policy, every fuel >= |I0| + sum_v (deg v + 1):
    the loop ends with an empty queue, fuel not exhausted, and
@@ -82,6 +82,76 @@ Theorem esir_tie_independent : forall tb1 tb2 g delay dur i0 r0 tmin tmax,
 Proof. exact EventSIRTop.esir_tie_independent. Qed.
 Print Assumptions esir_tie_independent.
 
+(* the user's rules are consulted at most once per argument (so "the value returned" is
+   well defined), and only for nodes that get infected *)
+Theorem esir_rules_once : forall tb g delay dur i0 r0 tmin tmax fuel,
+  esir_okb g delay dur i0 r0 tmin tmax = true -> (esir_fuel g i0 <= fuel)%nat ->
+  exists sF, esir_run tb g delay dur i0 r0 tmin tmax fuel = Ok sF /\
+             NoDup (olog sF) /\ (forall u x, In (u, x) (olog sF) -> infd (tlog sF) u).
+Proof. exact EventSIROut.esir_rules_once. Qed.
+Print Assumptions esir_rules_once.
+
+(* the sampler entry point (the one fast_SIR goes through) with table rules returns, on
+   every draw script, what the deterministic run returns: the loop is shared *)
+Theorem fast_nonmarkov_is_esir_det : forall tb g delay dur i0 r0 tmin tmax full fuel ds,
+  fst (exec (fast_nonmarkov tb g (det_provider delay dur) (Some i0) r0 None tmin tmax full fuel) ds []) =
+  esir_det tb g delay dur i0 (match r0 with Some l => l | None => [] end) tmin tmax full fuel.
+Proof. exact fast_nonmarkov_exec. Qed.
+Print Assumptions fast_nonmarkov_is_esir_det.
+
+(* outputs: the arrays are the rows after the |I0| set-up entries; when full data is
+   returned its transmissions() is the log the theorems above speak about *)
+Theorem esir_det_arrays : forall tb g delay dur i0 r0 tmin tmax fuel sF,
+  esir_run tb g delay dur i0 r0 tmin tmax fuel = Ok sF ->
+  esir_det tb g delay dur i0 r0 tmin tmax false fuel =
+  Ok (mkOut (skipn (length i0) (rev (rows sF))) None, rev (olog sF)).
+Proof. exact EventSIROut.esir_det_arrays. Qed.
+Print Assumptions esir_det_arrays.
+
+(* _partial: that esir_det with full data never takes its ValueErr branch (an infinite
+   time inside a node history) and that the infection entry of a history equals the time in
+   transmissions() needs the extra invariant J3b "every queued transmission to a susceptible
+   w is no earlier than pred_inf_time w" (DESIGN A.1); it is validated by the correspondence
+   (histories compared on every case) but not proved.  What is proved is conditional: *)
+Theorem esir_det_transmissions_partial : forall tb g delay dur i0 r0 tmin tmax fuel sF o cs,
+  esir_run tb g delay dur i0 r0 tmin tmax fuel = Ok sF ->
+  esir_det tb g delay dur i0 r0 tmin tmax true fuel = Ok (o, cs) ->
+  exists hs, so_full o = Some (mkFull hs (rev (tlog sF))) /\ cs = rev (olog sF).
+Proof. exact esir_det_transmissions. Qed.
+Print Assumptions esir_det_transmissions_partial.
+
+(* percolation builders: nonMarkov_directed_percolate_network_with_timing builds exactly H
+   (same nodes; attribute duration; arc u->v with attribute delay iff delay <= duration) *)
+Theorem perc_builder_spec : forall g delay dur,
+  map pn (perc_build g delay dur) = gnodes g /\
+  (forall p, In p (perc_build g delay dur) -> pdur p = dur (pn p)) /\
+  (forall p v d, In p (perc_build g delay dur) ->
+     (In (v, d) (pout p) <-> In v (gadj g (pn p)) /\ d = delay (pn p) v /\ xleb d (dur (pn p)) = true)).
+Proof. exact EventSIRPerc.perc_builder_spec. Qed.
+Print Assumptions perc_builder_spec.
+
+Theorem perc_calls_once : forall g,
+  NoDup (gnodes g) -> (forall u, In u (gnodes g) -> NoDup (gadj g u)) -> NoDup (perc_calls g).
+Proof. exact EventSIRPerc.perc_calls_once. Qed.
+Print Assumptions perc_calls_once.
+
+(* get_infected_nodes = out-component of the initially infected nodes in that graph minus the
+   initially recovered nodes ([preach]: reachable through arcs whose head is not removed);
+   nx.descendants is taken by its specification (reachability) *)
+Theorem get_infected_spec : forall g delay dur i0 r0,
+  NoDup (gnodes g) ->
+  (forall u v, In u (gnodes g) -> In v (gadj g u) -> In v (gnodes g)) ->
+  (forall u, In u i0 -> In u (gnodes g)) ->
+  forall v, In v (get_infected_det g delay dur i0 r0) <-> preach (perc_build g delay dur) r0 i0 v.
+Proof. exact EventSIRReach.get_infected_spec. Qed.
+Print Assumptions get_infected_spec.
+
+Theorem perc_arc_spec : forall g delay dur removed u v,
+  In v (psucc (perc_build g delay dur) removed u) <->
+  In u (gnodes g) /\ In v (gadj g u) /\ xleb (delay u v) (dur u) = true /\ ~ In v removed.
+Proof. exact psucc_perc. Qed.
+Print Assumptions perc_arc_spec.
+
 (* ---------------- non-vacuity ---------------- *)
 Definition g3 : graph :=
   mkGraph [0;1;2]%N (fun u => if N.eqb u 0 then [1;2]%N else if N.eqb u 1 then [0;2]%N else [0;1]%N)
@@ -114,3 +184,7 @@ Example esir_truncation :
   end.
 Proof. vm_compute. reflexivity. Qed.
 Print Assumptions esir_truncation.
+
+Example get_infected_example : get_infected_det g3 d3 r3 [0%N] [1%N] = [0%N].
+Proof. vm_compute. reflexivity. Qed.
+Print Assumptions get_infected_example.
